@@ -28,10 +28,15 @@ META = {
     'rule': 'case = (reader program, writer programs, schedule); distinct by program text + executed schedule trace; '
             'non-trivial = the reader observed some key at least twice and a writer committed between its first and '
             'last step. Reload provokers: load(), select by id, select all, get by non-key attribute, select_by_sql, '
-            'query over K (reverse side / seeds), query over T, collection iteration/len/count/is_empty.',
+            'query over K (reverse side / seeds), query over T, prefetch, collection read kinds iteration/sorted/list/'
+            'copy/len/bool/load/count/is_empty/`in`, in every order (loaded by one kind, observed by another); item '
+            'values observed through attribute lifting (R.kids.w); readers that write blindly, observe, commit() '
+            'mid-session and go on reading.',
     'assumptions': ['SQLite only', 'scope: object attributes and fully loaded collections (not projections, '
                     'aggregates, count() of a collection that was never fully loaded)',
-                    'the reader is read-only; writers are ordinary optimistic pony sessions'],
+                    'a reader may write R attributes and commit mid-session: its own write restarts the anchor of that key; '
+                    'seeing a member of a one-to-many collection anchors member.<reference>; a lifted attribute (coll.attr) '
+                    'is one key whose value is the sorted list; writers are ordinary optimistic pony sessions'],
     'shims': [],
     'exhaustive_tiers': [],
 }
@@ -336,12 +341,13 @@ def run(ctx):
     finally:
         model.close()
     ctx.count('distinct_schedules', len(SIGS))
-    ctx.floor('schedules.nontrivial', 400)
-    ctx.floor('obs.repeated', 1200)
-    ctx.floor('obs.repeated_collection', 150)
+    # floors are evaluated per shard: the thorough values are what the fixed core sets of every shard guarantee
+    one = ctx.nshards == 1
+    ctx.floor('schedules.nontrivial', 400 if one else 100)
+    ctx.floor('obs.repeated', 1200 if one else 200)
+    ctx.floor('obs.repeated_collection', 150 if one else 40)
     ctx.floor('obs.stale_but_stable', 100)
-    # floors are evaluated per shard
-    ctx.floor('session.reader.raised.UnrepeatableReadError', 30 if ctx.nshards == 1 else 6)
+    ctx.floor('session.reader.raised.UnrepeatableReadError', 30 if one else 6)
 
 
 def replay(ctx, witness):
